@@ -311,14 +311,16 @@ SomeNewQuery ==
        /\ LET S == Trees(MaxDepth - 1)
           IN  \/ \E a \in S, b \in S : NewQuery(UserText(And(a, b))) \/ NewQuery(UserText(Or(a, b)))
               \/ \E a \in S : NewQuery(UserText(Par(a)))
+(* (the guards are repeated in front of the quantifiers so that TLC does not    *)
+(* enumerate the bindings in states where the action is disabled anyway)         *)
 Next ==
-    \/ SomeNewQuery
-    \/ nops < MaxOps /\ \E T \in TimeChoices, w \in {"q", "c"} : SetTimes(w, T[1], T[2])
-    \/ nops < MaxOps /\ DoClone
-    \/ \E s \in Schedules : \E p \in 0..((IF s.kind = "cron" THEN s.p ELSE s.every) - 1), n \in SpanLens :
+    \/ mode = "idle" /\ SomeNewQuery
+    \/ mode = "query" /\ nops < MaxOps /\ \E T \in TimeChoices, w \in {"q", "c"} : SetTimes(w, T[1], T[2])
+    \/ mode = "query" /\ nops < MaxOps /\ DoClone
+    \/ mode = "idle" /\ \E s \in Schedules : \E p \in 0..((IF s.kind = "cron" THEN s.p ELSE s.every) - 1), n \in SpanLens :
           StartSpan(s, Base + p, Base + p + n)
     \/ HistStep \/ LiveTick
-    \/ \E d \in SUBSET DBRPs, srcs \in SourceLists : StartBatch(d, srcs)
+    \/ mode = "idle" /\ \E d \in SUBSET DBRPs, srcs \in SourceLists : StartBatch(d, srcs)
 Spec == Init /\ [][Next]_vars
 
 ----------------------------------------------------------------------------
